@@ -212,6 +212,32 @@ func c11Snap(c *ConnectionSet) string {
 	return fmt.Sprintf("all=%v %s", c.AllowAll, strings.Join(parts, ";"))
 }
 
+// c11NameSets: the port names a set holds and excludes, per protocol (protocols without names left out).
+func c11NameSets(c *ConnectionSet) string {
+	var parts []string
+	for p, ps := range c.AllowedProtocols {
+		var nn, ex []string
+		for n, v := range ps.NamedPorts {
+			if v {
+				nn = append(nn, n)
+			}
+		}
+		for n, v := range ps.ExcludedNamedPorts {
+			if v {
+				ex = append(ex, n)
+			}
+		}
+		if len(nn)+len(ex) == 0 {
+			continue
+		}
+		sort.Strings(nn)
+		sort.Strings(ex)
+		parts = append(parts, fmt.Sprintf("%s:%v|%v", p, nn, ex))
+	}
+	sort.Strings(parts)
+	return strings.Join(parts, ";")
+}
+
 func checkC11(c *C11Case, st *VStats) *VFailure {
 	if c.Mode == "portset" {
 		return checkC11PortSet(c, st)
@@ -356,14 +382,27 @@ func checkC11(c *C11Case, st *VStats) *VFailure {
 			if !ab.Equal(ba) || !ba.Equal(ab) || ab.String() != ba.String() {
 				return vfail("%s: union does not commute: a∪b=%q (%s) b∪a=%q (%s)", step, ab.String(), c11Snap(ab), ba.String(), c11Snap(ba))
 			}
+			bWasEmpty, uCopy := vars[b].IsEmpty(), vars[a].Copy()
 			vars[a].Union(vars[b])
+			if bWasEmpty && !(vars[a].Equal(uCopy) && vars[a].String() == uCopy.String() && c11NameSets(vars[a]) == c11NameSets(uCopy)) {
+				return vfail("%s: X ∪ ∅ is not X: X=%q (%s), result %q (%s)", step, uCopy.String(), c11Snap(uCopy), vars[a].String(), c11Snap(vars[a]))
+			}
 			for p := 0; p < 3; p++ {
 				for i := 0; i < c11Words; i++ {
 					models[a][p][i] |= models[b][p][i]
 				}
 			}
 		case "inter":
+			// the full set is the neutral element of intersection and a set intersected with itself stays as it is -
+			// with every port NAME the other operand holds or excludes, in whichever operand the full set stands
+			aWasAll, bWasAll, aCopy := vars[a].AllowAll, vars[b].AllowAll, vars[a].Copy()
 			vars[a].Intersection(vars[b])
+			if a != b && aWasAll && !(vars[a].Equal(vars[b]) && vars[b].Equal(vars[a]) && vars[a].String() == vars[b].String() && c11NameSets(vars[a]) == c11NameSets(vars[b])) {
+				return vfail("%s: All ∩ X is not X: X=%q (%s), result %q (%s)", step, vars[b].String(), c11Snap(vars[b]), vars[a].String(), c11Snap(vars[a]))
+			}
+			if (bWasAll || a == b) && !(vars[a].Equal(aCopy) && aCopy.Equal(vars[a]) && vars[a].String() == aCopy.String() && c11NameSets(vars[a]) == c11NameSets(aCopy)) {
+				return vfail("%s: X ∩ All (or X ∩ X) is not X: X=%q (%s), result %q (%s)", step, aCopy.String(), c11Snap(aCopy), vars[a].String(), c11Snap(vars[a]))
+			}
 			for p := 0; p < 3; p++ {
 				for i := 0; i < c11Words; i++ {
 					models[a][p][i] &= models[b][p][i]
@@ -371,7 +410,11 @@ func checkC11(c *C11Case, st *VStats) *VFailure {
 			}
 		case "sub":
 			mb := *models[b]
+			sbWasEmpty, sCopy := vars[b].IsEmpty(), vars[a].Copy()
 			vars[a].Subtract(vars[b])
+			if a != b && sbWasEmpty && !(vars[a].Equal(sCopy) && vars[a].String() == sCopy.String() && c11NameSets(vars[a]) == c11NameSets(sCopy)) {
+				return vfail("%s: X - ∅ is not X: X=%q (%s), result %q (%s)", step, sCopy.String(), c11Snap(sCopy), vars[a].String(), c11Snap(vars[a]))
+			}
 			for p := 0; p < 3; p++ {
 				for i := 0; i < c11Words; i++ {
 					models[a][p][i] &^= mb[p][i]
